@@ -1085,11 +1085,50 @@ func scDupParams(r *h.Rng) *prog {
 	return p
 }
 
+// evaluation order around calls, `new` and assignments (11.2.2, 11.2.3: the callee's VALUE is read before
+// the arguments are evaluated - otto: Dev region call_callee_late; 11.13.1 / 11.2.1: the left-hand
+// reference incl. CheckObjectCoercible comes before the right-hand side), and `new` on a bound function
+// whose target is a bound function (15.3.4.5.2; repaired by f83bcd0)
+func scOrder(r *h.Rng) *prog {
+	p := &prog{}
+	p.v("f", "g", "o", "u", "x", "B")
+	k1, k2 := 1+r.Intn(9), 11+r.Intn(9)
+	mk := func(k int) m.N {
+		return m.Fn{Params: []string{"a"}, Body: []m.N{m.X(m.Set(m.This(), "t", m.Num(k))), m.Ret(m.Add(m.Num(k*100), m.Var("a")))}}.Expr()
+	}
+	p.add(m.X(m.Asg("f", mk(k1))), m.X(m.Asg("g", mk(k2))), m.X(m.Asg("o", m.Obj(m.Prop{K: "mm", V: mk(k1)}))), m.X(m.Asg("x", m.Num(0))))
+	for n := 1 + r.Intn(3); n > 0; n-- {
+		switch r.Intn(9) {
+		case 0: // f(f = g): ES5 calls the old f
+			p.add(lg(m.CallV("f", m.Seq(m.Asg("f", m.Var("g")), m.Var("g")))), lg(m.Seq(m.Var("f"), m.Var("g"))))
+		case 1: // the argument assigns something else: no question of order
+			p.add(lg(m.CallV("f", m.Asg("x", m.Num(r.Intn(9))))), lg(m.Var("x")))
+		case 2: // o.mm(o.mm = g)
+			p.add(lg(m.MCall(m.Var("o"), "mm", m.Seq(m.Set(m.Var("o"), "mm", m.Var("g")), m.Var("g")))), lg(m.Get(m.Var("o"), "t")))
+		case 3: // new f(f = g)
+			p.add(lg(m.Get(m.New(m.Var("f"), m.Seq(m.Asg("f", m.Var("g")), m.Var("g"))), "t")))
+		case 4: // u.p = log(1): TypeError before the right-hand side
+			p.add(guard(m.X(m.Set(m.Var("u"), "p", m.Log(m.Num(1))))))
+		case 5: // u[log(2)] = log(1): the key is evaluated, then TypeError
+			p.add(guard(m.X(m.SetE(m.Var("u"), m.Log(m.Num(2)), m.Log(m.Num(1))))))
+		case 6: // a call whose callee is not callable: the arguments are evaluated first (11.2.3 step 3, then 4-5)
+			p.add(guard(lg(m.CallV("x", m.Log(m.Num(3))))), guard(lg(m.MCall(m.Var("o"), "nothing", m.Log(m.Num(4))))))
+		case 7: // new on a bound function of a bound function
+			p.add(m.X(m.Asg("B", m.MCall(m.MCall(m.Var("f"), "bind", m.Null(), m.Num(1)), "bind", m.Null()))),
+				guard(lg(m.Get(m.New(m.Var("B")), "t"))), lg(m.CallV("B")))
+		default: // an unresolvable callee: ReferenceError, but only after the arguments
+			p.add(guard(lg(m.CallV("nowhere", m.Log(m.Num(5))))))
+		}
+	}
+	p.add(lg(m.CallV("f", m.Num(1))))
+	return p
+}
+
 func init() {
 	fnScenarios = append(fnScenarios, []fnScenario{
 		{"with-lookup", scWithLookup}, {"with-closure", scWithClosure}, {"with-this", scWithThis}, {"with-var", scWithVar},
 		{"with-delete", scWithDelete}, {"with-nested", scWithNested}, {"with-exit", scWithExit}, {"with-null", scWithNull},
 		{"forin-chain", scForInChain}, {"forin-special", scForInSpecial}, {"forin-return", scForInReturn}, {"forin-labels", scForInLabels},
 		{"forin-delete", scForInDelete}, {"forin-revisit", scForInRevisit}, {"forin-empty", scForInEmpty}, {"forin-with", scForInWith}, {"forin-value", scForInValue},
-		{"labels", scLabels}, {"dup-params", scDupParams}}...)
+		{"labels", scLabels}, {"dup-params", scDupParams}, {"order", scOrder}}...)
 }
